@@ -39,8 +39,12 @@ package ipfshttp
 //@   ensures [success-has-the-body-read] err == nil ==> same(res1, body)
 //@   modifies nothing
 
+// "requests nothing when the CID is already pinned as asked": the daemon is asked about the kind of pin the DEPTH calls
+// for - the same quantity Pin() builds its request and its already-pinned test from - whatever the mode option says
 //@ func (ipfs *Connector) PinLsCid
 //@   property C16
+//@   requires pin != nil
+//@   at_call Connector.postCtx assert [asks-about-the-pin-kind-of-the-depth] pinType == ite(pin.MaxDepth == 0, "direct", "recursive") && same(path, lsPath)
 //@   ensures err != nil ==> res == api.IPFSPinStatusError
 //@   ensures postN == old(postN) + 1
 //@   records lastLs = res
@@ -119,4 +123,5 @@ package ipfshttp
 //@ func (ipfs *Connector) Shutdown
 //@   property C18
 //@   opts own
+//@   ensures [success-means-shut-down] err == nil ==> ipfs.shutdown
 //@   modifies *
